@@ -282,3 +282,61 @@ R("c09-r-single-acquire", ["C09", "C10"], [(RUN, '''            if self._limiter
                 await consumer.unpause()
 ''')])
 R("c10-r-gate-not-lt", ["C10"], [(RUN, "if self._tasks_started >= self.max_tasks:", "if not self._tasks_started < self.max_tasks:")])
+
+# ----------------------------------------------------------------------------------------------- C17
+WRAP = "repid/middlewares/wrapper.py"
+MWARE = "repid/middlewares/middleware.py"
+M("c17-emitter-fix-reverted", ["C17"], [(PROC, '''    __slots__ = ("_conn", "_processed", "actor_run")
+
+    def __init__(self, _conn: Connection) -> None:
+        self._conn = _conn
+        # every processor owns its wrapper, so that signals are emitted to its own connection only
+        self.actor_run = middleware_wrapper(self._actor_run, name="actor_run")
+''', '''    __slots__ = ("_conn", "_processed")
+
+    def __init__(self, _conn: Connection) -> None:
+        self._conn = _conn
+'''), (PROC, '''    @staticmethod
+    async def _actor_run(''', '''    @staticmethod
+    @middleware_wrapper
+    async def actor_run(''')], "R-C17-EMITTER-OWN")
+M("c17-after-before-call", ["C17"], [(WRAP, '''        result = await create_task(self.call_set_context(*args, **kwargs))
+        # whatever the function returns can be seen as `result` kwarg in `after` signal
+        signal_kwargs.update({"result": result})
+
+        # emit `after` signal
+        await self._repid_signal_emitter(f"after_{self.name}", signal_kwargs)
+''', '''        # emit `after` signal
+        await self._repid_signal_emitter(f"after_{self.name}", signal_kwargs)
+        result = await create_task(self.call_set_context(*args, **kwargs))
+        # whatever the function returns can be seen as `result` kwarg in `after` signal
+        signal_kwargs.update({"result": result})
+''')], "R-C17-PROTOCOL")
+M("c17-before-not-awaited", ["C17"], [(WRAP, '''        await self._repid_signal_emitter(f"before_{self.name}", signal_kwargs)''', '''        create_task(self._repid_signal_emitter(f"before_{self.name}", signal_kwargs))''')], "R-C17-PROTOCOL")
+M("c17-nested-still-emits", ["C17"], [(WRAP, "if IsInsideMiddleware.get() or self._repid_signal_emitter is None:", "if self._repid_signal_emitter is None:")], "R-C17-PROTOCOL")
+M("c17-kwargs-not-copied", ["C17"], [(WRAP, "signal_kwargs = kwargs.copy()", "signal_kwargs = kwargs")], "R-C17-PROTOCOL")
+M("c17-swallow-operation-error", ["C17"], [(WRAP, '''        result = await create_task(self.call_set_context(*args, **kwargs))
+''', '''        try:
+            result = await create_task(self.call_set_context(*args, **kwargs))
+        except Exception:
+            result = None
+''')], "R-C17-PROTOCOL")
+M("c17-flag-set-in-caller", ["C17"], [(WRAP, '''        IsInsideMiddleware.set(True)  # noqa: FBT003
+        return await self.fn(*args, **kwargs)''', '''        return await self.fn(*args, **kwargs)'''), (WRAP, '''        result = await create_task(self.call_set_context(*args, **kwargs))''', '''        IsInsideMiddleware.set(True)  # noqa: FBT003
+        result = await create_task(self.call_set_context(*args, **kwargs))
+        IsInsideMiddleware.set(False)  # noqa: FBT003''')], "R-C17-CONTEXT")
+M("c17-wrapped-table-missing", ["C17"], [("repid/middlewares/consts.py", '    "requeue",\n', "")], "R-C17-TABLE")
+M("c17-abc-wrapped-missing", ["C17"], [("repid/connections/abc.py", '        "nack",\n        "requeue",', '        "nack",')], "R-C17-TABLE")
+M("c17-subscriber-reraise", ["C17"], [(MWARE, '''                logger.exception(
+                    "Subscriber '{fn_name}' ({fn}) raised an exception.",
+                    extra=logger_extra,
+                )
+''', '''                logger.exception(
+                    "Subscriber '{fn_name}' ({fn}) raised an exception.",
+                    extra=logger_extra,
+                )
+                raise
+''')], "R-C17-ISOLATE")
+M("c17-subscriber-narrow-handler", ["C17"], [(MWARE, "            except Exception:  # noqa: BLE001\n                logger.exception(", "            except ValueError:\n                logger.exception(")], "R-C17-ISOLATE")
+M("c17-consumer-emitter-dropped", ["C17"], [("repid/connections/abc.py", "        consumer._signal_emitter = self._signal_emitter\n", "")], "R-C17-EMITTER-OWN")
+R("c17-r-result-subscript", ["C17"], [(WRAP, '        signal_kwargs.update({"result": result})\n', '        signal_kwargs["result"] = result\n')])
